@@ -204,6 +204,13 @@ func c07Queries(param string, m *meta.Module, defs []meta.Definition, t *model.T
 				q.params.XFields = fe.q
 			}
 			add(q)
+			if strings.ContainsAny(fe.text, ";()") && !strings.ContainsAny(fe.text, "%&#+ ") {
+				// the same expression as it is written in a URL by hand: ';' and parentheses unescaped
+				raw := q
+				raw.text = param + "=" + fe.text
+				raw.shape += "/unescaped"
+				add(raw)
+			}
 		}
 	case "with-defaults":
 		add(c07Query{text: "with-defaults=trim", params: model.Params{TrimDefaults: true}, shape: "with-defaults=trim"})
